@@ -244,7 +244,7 @@ fn merge_heavy_rule() -> BoxedStrategy<RuleSpec> {
 /// from one match to the next would show as order-dependent verdicts.
 fn big_count_rule() -> BoxedStrategy<RuleSpec> {
     use crate::spec::*;
-    (prop::sample::select(vec![8usize, 63, 64, 65, 70]), 0u8..4, any::<bool>())
+    (prop::sample::select(vec![8usize, 63, 64, 65, 70]), 0u8..6, any::<bool>())
         .prop_map(|(len, quant, ci)| {
             let members: Vec<ValSpec> = (0..len)
                 .map(|i| ValSpec::Str(format!("{}*n{:03}x*", if ci { "i" } else { "" }, i)))
@@ -253,7 +253,10 @@ fn big_count_rule() -> BoxedStrategy<RuleSpec> {
                 0 => KMod::All,
                 1 => KMod::Of(2),
                 2 => KMod::Of(3),
-                _ => KMod::Of(len as u64),
+                3 => KMod::Of(len as u64),
+                // a single needle in the document decides these
+                4 => KMod::Of(1),
+                _ => KMod::None,
             };
             RuleSpec {
                 idents: vec![(
@@ -267,9 +270,13 @@ fn big_count_rule() -> BoxedStrategy<RuleSpec> {
 }
 
 /// Worker mode: print one digest line per generated rule (used for the cross-process comparison).
-pub fn worker(seed: u64, n: usize) {
+pub fn worker(seed: u64, n: usize, reversed: bool) {
     let values = gen::sample_values(seed, n, &strategy());
-    for (i, (rule, recipes, bits)) in values.iter().enumerate() {
+    // the second worker loads the rules in the opposite order: what one rule does must not depend
+    // on which rules the process handled before
+    let order: Vec<usize> = if reversed { (0..values.len()).rev().collect() } else { (0..values.len()).collect() };
+    for i in order {
+        let (rule, recipes, bits) = &values[i];
         if !rule.well_formed() {
             println!("{i} skip");
             continue;
@@ -347,16 +354,18 @@ pub fn run(tier: &str, seed: u64) -> i32 {
     let pn = if tier == "thorough" { 6_000 } else { 600 };
     let pseed = mix(seed, 62);
     let exe = std::env::current_exe().expect("exe");
-    let spawn = || {
+    let spawn = |reversed: bool| {
         std::process::Command::new(&exe)
-            .args(["worker", "c12", &pseed.to_string(), &pn.to_string()])
+            .args(["worker", if reversed { "c12rev" } else { "c12" }, &pseed.to_string(), &pn.to_string()])
             .output()
             .map(|o| String::from_utf8_lossy(&o.stdout).to_string())
     };
-    match (spawn(), spawn()) {
+    match (spawn(false), spawn(true)) {
         (Ok(a), Ok(b)) => {
             let la: Vec<&str> = a.lines().collect();
-            let lb: Vec<&str> = b.lines().collect();
+            let mut lb: Vec<&str> = b.lines().collect();
+            // the reversed worker printed in reversed order; bring its lines back to index order
+            lb.reverse();
             report.label_n("cross_process_rules", la.len() as u64);
             if la.len() != pn || lb.len() != pn {
                 report.notes.push(format!("worker output incomplete ({} / {} of {pn} lines)", la.len(), lb.len()));
